@@ -24,6 +24,10 @@ pub trait Subject: Sized {
     fn snapshot(&self) -> Snap;
     fn audit(&self, lookup: bool) -> AuditList;
     fn try_clone(&self) -> Option<Self>;
+    /// `dst.clone_from(self)` onto a differently configured, non-empty destination; None if not cloneable
+    fn clone_from_onto(&self, _cfg: &Cfg) -> Option<Self> {
+        None
+    }
     /// C14: exhaustive next/next_back words on every iterator family of every list.
     /// Returns (iterator runs evaluated, problems).
     fn iter_check(&mut self, _snap: &Snap, _max_extra: usize) -> (u64, Vec<String>) {
@@ -119,7 +123,48 @@ impl<K: KeyT, V: ValT> OnEvictCallback for LogCb<K, V> {
         let k: &K = unsafe { &*(key as *const K2 as *const K) };
         let v: &V = unsafe { &*(val as *const V2 as *const V) };
         let e = ent(k, v);
+        if e.0 == 255 || e.1 == (255, 255) {
+            crate::track::report(format!("the eviction callback was handed a key/value that is not a live object ({:?})", e));
+        }
         crate::alloc::untracked(|| CB_LOG.with(|l| l.borrow_mut().push(e)));
+    }
+}
+
+// ------------------------------------------------------------------ which constructor family builds the cache
+
+/// `HB`: the builders with explicit (deterministic) hashers, two setter orders (`builder_path` 0/1).
+/// `DefaultHashBuilder`: the constructors that take no hasher (`new`, `with_*`), `builder_path` >= 2.
+pub trait HasherSel: BuildHasher + Clone + Sized + 'static {
+    fn build_slru<K: KeyT, V: ValT>(cfg: &Cfg) -> Result<SegmentedCache<K, V, Self, Self>, String>;
+    fn build_twoq<K: KeyT, V: ValT>(cfg: &Cfg) -> Result<TwoQueueCache<K, V, Self, Self, Self>, String>;
+    fn build_arc<K: KeyT, V: ValT>(cfg: &Cfg) -> Result<AdaptiveCache<K, V, Self, Self, Self, Self>, String>;
+}
+
+impl HasherSel for caches::DefaultHashBuilder {
+    fn build_slru<K: KeyT, V: ValT>(cfg: &Cfg) -> Result<SegmentedCache<K, V, Self, Self>, String> {
+        match cfg.builder_path {
+            2 => SegmentedCache::new(cfg.caps[0], cfg.caps[1]),
+            _ => SegmentedCache::<K, V>::builder(cfg.caps[0], cfg.caps[1]).finalize(),
+        }
+        .map_err(|e| format!("{:?}", e))
+    }
+    fn build_twoq<K: KeyT, V: ValT>(cfg: &Cfg) -> Result<TwoQueueCache<K, V, Self, Self, Self>, String> {
+        let (n, rr, gr) = (cfg.caps[0], cfg.ratios.0, cfg.ratios.1);
+        match cfg.builder_path {
+            2 => TwoQueueCache::new(n),                   // default ratios only
+            3 => TwoQueueCache::with_recent_ratio(n, rr), // default ghost ratio only
+            4 => TwoQueueCache::with_ghost_ratio(n, gr),  // default recent ratio only
+            5 => TwoQueueCache::with_2q_parameters(n, rr, gr),
+            _ => TwoQueueCache::<K, V>::builder(n).set_recent_ratio(rr).set_ghost_ratio(gr).finalize(),
+        }
+        .map_err(|e| format!("{:?}", e))
+    }
+    fn build_arc<K: KeyT, V: ValT>(cfg: &Cfg) -> Result<AdaptiveCache<K, V, Self, Self, Self, Self>, String> {
+        match cfg.builder_path {
+            2 => AdaptiveCache::new(cfg.caps[0]),
+            _ => AdaptiveCache::<K, V>::builder(cfg.caps[0]).finalize(),
+        }
+        .map_err(|e| format!("{:?}", e))
     }
 }
 
@@ -185,8 +230,8 @@ fn okv_mut<K: KeyT, V: ValT>(o: Option<(&K, &mut V)>, write: bool) -> Ret {
 
 /// drain one RawLRU's twelve iterator families from the front (observer `Iters`)
 fn drain_iters<K: KeyT, V: ValT, E: OnEvictCallback, S: BuildHasher>(l: &mut RawLRU<K, V, E, S>) -> Vec<Ret> {
-    let kk = |k: &K| (k.id(), (0u8, 0u8));
-    let vv = |v: &V| (255u8, v.kv());
+    let kk = |k: &K| (k.id(), (254u8, 254u8));
+    let vv = |v: &V| (254u8, v.kv());
     vec![
         Ret::Ents(l.iter().map(|(k, v)| ent(k, v)).collect()),
         Ret::Ents(l.iter_lru().map(|(k, v)| ent(k, v)).collect()),
@@ -332,21 +377,36 @@ impl<K: KeyT, V: ValT> Subject for RawSubj<K, V> {
     fn iter_check(&mut self, snap: &Snap, max_extra: usize) -> (u64, Vec<String>) {
         with_raw!(self, c => crate::iters::check_raw(c, &snap.lists[0], max_extra))
     }
+    fn clone_from_onto(&self, cfg: &Cfg) -> Option<Self> {
+        // destination: another capacity, already holding entries
+        let mut c2 = cfg.clone();
+        c2.caps[0] = if cfg.caps[0] > 1 { cfg.caps[0] - 1 } else { cfg.caps[0] + 2 };
+        let mut dst = Self::build(&c2).ok()?;
+        let mut out = Vec::new();
+        dst.apply(Op::Put(0, 0), &mut out);
+        dst.apply(Op::Put(cfg.keys.saturating_sub(1), 0), &mut out);
+        match (&mut dst.0, &self.0) {
+            (RawInner::Plain(d), RawInner::Plain(s)) => d.clone_from(s),
+            (RawInner::Cb(d), RawInner::Cb(s)) => d.clone_from(s),
+            (RawInner::CbRs(d), RawInner::CbRs(s)) => d.clone_from(s),
+            _ => return None,
+        }
+        Some(dst)
+    }
 }
 
 // ------------------------------------------------------------------ SegmentedCache
 
-pub struct SlruSubj<K, V>(pub SegmentedCache<K, V, HB, HB>);
+pub struct SlruSubj<K, V, H = HB>(pub SegmentedCache<K, V, H, H>);
 
-impl<K: KeyT, V: ValT> Subject for SlruSubj<K, V> {
-    fn build(cfg: &Cfg) -> Result<Self, String> {
-        catch_build(|| {
+impl HasherSel for HB {
+    fn build_slru<K: KeyT, V: ValT>(cfg: &Cfg) -> Result<SegmentedCache<K, V, Self, Self>, String> {
             if cfg.builder_path == 0 {
                 SegmentedCacheBuilder::new(cfg.caps[0], cfg.caps[1])
                     .set_probationary_hasher(hasher_for(cfg, 0))
                     .set_protected_hasher(hasher_for(cfg, 1))
                     .finalize()
-                    .map(SlruSubj)
+                    
                     .map_err(|e| format!("{:?}", e))
             } else {
                 let b = SegmentedCacheBuilder::default()
@@ -354,9 +414,56 @@ impl<K: KeyT, V: ValT> Subject for SlruSubj<K, V> {
                     .set_probationary_hasher(hasher_for(cfg, 0))
                     .set_probationary_size(cfg.caps[0])
                     .set_protected_size(cfg.caps[1]);
-                SegmentedCache::from_builder(b).map(SlruSubj).map_err(|e| format!("{:?}", e))
+                SegmentedCache::from_builder(b).map_err(|e| format!("{:?}", e))
             }
-        })
+    }
+    fn build_twoq<K: KeyT, V: ValT>(cfg: &Cfg) -> Result<TwoQueueCache<K, V, Self, Self, Self>, String> {
+            if cfg.builder_path == 0 {
+                TwoQueueCacheBuilder::new(cfg.caps[0])
+                    .set_recent_ratio(cfg.ratios.0)
+                    .set_ghost_ratio(cfg.ratios.1)
+                    .set_recent_hasher(hasher_for(cfg, 0))
+                    .set_frequent_hasher(hasher_for(cfg, 1))
+                    .set_ghost_hasher(hasher_for(cfg, 2))
+                    .finalize()
+                    
+                    .map_err(|e| format!("{:?}", e))
+            } else {
+                let b = TwoQueueCacheBuilder::default()
+                    .set_ghost_hasher(hasher_for(cfg, 2))
+                    .set_frequent_hasher(hasher_for(cfg, 1))
+                    .set_recent_hasher(hasher_for(cfg, 0))
+                    .set_ghost_ratio(cfg.ratios.1)
+                    .set_size(cfg.caps[0])
+                    .set_recent_ratio(cfg.ratios.0);
+                TwoQueueCache::from_builder(b).map_err(|e| format!("{:?}", e))
+            }
+    }
+    fn build_arc<K: KeyT, V: ValT>(cfg: &Cfg) -> Result<AdaptiveCache<K, V, Self, Self, Self, Self>, String> {
+            if cfg.builder_path == 0 {
+                AdaptiveCacheBuilder::new(cfg.caps[0])
+                    .set_recent_hasher(hasher_for(cfg, 0))
+                    .set_frequent_hasher(hasher_for(cfg, 1))
+                    .set_recent_evict_hasher(hasher_for(cfg, 2))
+                    .set_frequent_evict_hasher(hasher_for(cfg, 3))
+                    .finalize()
+                    
+                    .map_err(|e| format!("{:?}", e))
+            } else {
+                let b = AdaptiveCacheBuilder::default()
+                    .set_frequent_evict_hasher(hasher_for(cfg, 3))
+                    .set_recent_evict_hasher(hasher_for(cfg, 2))
+                    .set_frequent_hasher(hasher_for(cfg, 1))
+                    .set_recent_hasher(hasher_for(cfg, 0))
+                    .set_size(cfg.caps[0]);
+                AdaptiveCache::from_builder(b).map_err(|e| format!("{:?}", e))
+            }
+    }
+}
+
+impl<K: KeyT, V: ValT, H: HasherSel> Subject for SlruSubj<K, V, H> {
+    fn build(cfg: &Cfg) -> Result<Self, String> {
+        catch_build(|| H::build_slru(cfg).map(SlruSubj))
     }
     fn apply(&mut self, op: Op, out: &mut Vec<u32>) -> Ret {
         let c = &mut self.0;
@@ -418,36 +525,25 @@ impl<K: KeyT, V: ValT> Subject for SlruSubj<K, V> {
     fn try_clone(&self) -> Option<Self> {
         Some(SlruSubj(self.0.clone()))
     }
+    fn clone_from_onto(&self, cfg: &Cfg) -> Option<Self> {
+        let mut c2 = cfg.clone();
+        c2.caps = vec![cfg.caps[1] + 1, cfg.caps[0] + 2];
+        let mut dst = Self::build(&c2).ok()?;
+        let mut out = Vec::new();
+        dst.apply(Op::Put(0, 0), &mut out);
+        dst.apply(Op::Get(0), &mut out);
+        dst.0.clone_from(&self.0);
+        Some(dst)
+    }
 }
 
 // ------------------------------------------------------------------ TwoQueueCache
 
-pub struct TwoQSubj<K: KeyT, V>(pub TwoQueueCache<K, V, HB, HB, HB>);
+pub struct TwoQSubj<K: KeyT, V, H = HB>(pub TwoQueueCache<K, V, H, H, H>);
 
-impl<K: KeyT, V: ValT> Subject for TwoQSubj<K, V> {
+impl<K: KeyT, V: ValT, H: HasherSel> Subject for TwoQSubj<K, V, H> {
     fn build(cfg: &Cfg) -> Result<Self, String> {
-        catch_build(|| {
-            if cfg.builder_path == 0 {
-                TwoQueueCacheBuilder::new(cfg.caps[0])
-                    .set_recent_ratio(cfg.ratios.0)
-                    .set_ghost_ratio(cfg.ratios.1)
-                    .set_recent_hasher(hasher_for(cfg, 0))
-                    .set_frequent_hasher(hasher_for(cfg, 1))
-                    .set_ghost_hasher(hasher_for(cfg, 2))
-                    .finalize()
-                    .map(TwoQSubj)
-                    .map_err(|e| format!("{:?}", e))
-            } else {
-                let b = TwoQueueCacheBuilder::default()
-                    .set_ghost_hasher(hasher_for(cfg, 2))
-                    .set_frequent_hasher(hasher_for(cfg, 1))
-                    .set_recent_hasher(hasher_for(cfg, 0))
-                    .set_ghost_ratio(cfg.ratios.1)
-                    .set_size(cfg.caps[0])
-                    .set_recent_ratio(cfg.ratios.0);
-                TwoQueueCache::from_builder(b).map(TwoQSubj).map_err(|e| format!("{:?}", e))
-            }
-        })
+        catch_build(|| H::build_twoq(cfg).map(TwoQSubj))
     }
     fn apply(&mut self, op: Op, out: &mut Vec<u32>) -> Ret {
         let c = &mut self.0;
@@ -497,30 +593,11 @@ impl<K: KeyT, V: ValT> Subject for TwoQSubj<K, V> {
 
 // ------------------------------------------------------------------ AdaptiveCache
 
-pub struct ArcSubj<K, V>(pub AdaptiveCache<K, V, HB, HB, HB, HB>);
+pub struct ArcSubj<K, V, H = HB>(pub AdaptiveCache<K, V, H, H, H, H>);
 
-impl<K: KeyT, V: ValT> Subject for ArcSubj<K, V> {
+impl<K: KeyT, V: ValT, H: HasherSel> Subject for ArcSubj<K, V, H> {
     fn build(cfg: &Cfg) -> Result<Self, String> {
-        catch_build(|| {
-            if cfg.builder_path == 0 {
-                AdaptiveCacheBuilder::new(cfg.caps[0])
-                    .set_recent_hasher(hasher_for(cfg, 0))
-                    .set_frequent_hasher(hasher_for(cfg, 1))
-                    .set_recent_evict_hasher(hasher_for(cfg, 2))
-                    .set_frequent_evict_hasher(hasher_for(cfg, 3))
-                    .finalize()
-                    .map(ArcSubj)
-                    .map_err(|e| format!("{:?}", e))
-            } else {
-                let b = AdaptiveCacheBuilder::default()
-                    .set_frequent_evict_hasher(hasher_for(cfg, 3))
-                    .set_recent_evict_hasher(hasher_for(cfg, 2))
-                    .set_frequent_hasher(hasher_for(cfg, 1))
-                    .set_recent_hasher(hasher_for(cfg, 0))
-                    .set_size(cfg.caps[0]);
-                AdaptiveCache::from_builder(b).map(ArcSubj).map_err(|e| format!("{:?}", e))
-            }
-        })
+        catch_build(|| H::build_arc(cfg).map(ArcSubj))
     }
     fn apply(&mut self, op: Op, out: &mut Vec<u32>) -> Ret {
         let c = &mut self.0;
@@ -653,6 +730,17 @@ impl<K: KeyT, V: ValT> Subject for WtlfuSubj<K, V> {
     }
     fn try_clone(&self) -> Option<Self> {
         Some(WtlfuSubj(self.0.clone()))
+    }
+    fn clone_from_onto(&self, cfg: &Cfg) -> Option<Self> {
+        let mut c2 = cfg.clone();
+        c2.caps = vec![cfg.caps[0] + 1, cfg.caps[2] + 1, cfg.caps[1] + 2];
+        c2.samples = cfg.samples + 3;
+        let mut dst = Self::build(&c2).ok()?;
+        let mut out = Vec::new();
+        dst.apply(Op::Put(0, 0), &mut out);
+        dst.apply(Op::Get(1), &mut out);
+        dst.0.clone_from(&self.0);
+        Some(dst)
     }
     fn probe(&self, cfg: &Cfg) -> crate::driver::Probe {
         let est = self.0.verif_estimator();
